@@ -259,9 +259,13 @@ Section Shape.
   (** [(a - b).abs() > EPSILON] *)
   Definition differ (a b : T) : bool := ltb O eps (abs O (sub O a b)).
 
+  (** mirrored entries of [is_symmetric] (repaired: relative to the larger magnitude; [f64::max] drops a NaN operand):
+      [(x - y).abs() > EPSILON * x.abs().max(y.abs())] *)
+  Definition sym_differ (a b : T) : bool := ltb O (mul O eps (fmax O (abs O a) (abs O b))) (abs O (sub O a b)).
+
   Definition is_symmetric (m : mat) : bool :=
     if is_square m then
-      forallb (fun i => forallb (fun j => negb (differ (nth (i * ncols m + j) (data m) d) (nth (j * nrows m + i) (data m) d)))
+      forallb (fun i => forallb (fun j => negb (sym_differ (nth (i * ncols m + j) (data m) d) (nth (j * nrows m + i) (data m) d)))
                                 (seq i (ncols m - i)))
               (seq 0 (nrows m))
     else false.
@@ -284,7 +288,7 @@ Section Shape.
     Some (forallb (fun i => negb (differ (nth (i * nc) m d) (one O))) (seq 0 nr)).
   Definition is_symmetric_u (m : list T) : option bool :=
     let* n := is_square_u (length m) in
-    Some (forallb (fun i => forallb (fun j => negb (differ (nth (i * n + j) m d) (nth (j * n + i) m d))) (seq i (n - i)))
+    Some (forallb (fun i => forallb (fun j => negb (sym_differ (nth (i * n + j) m d) (nth (j * n + i) m d))) (seq i (n - i)))
                   (seq 0 n)).
   Definition diag_u (a : list T) : option (list T) :=
     let* n := is_square_u (length a) in
